@@ -71,7 +71,7 @@ theorem judged_stubAlias (N : Naming) (ns : String) (a : AliasDef) :
 
 theorem judged_rtAlias (N : Naming) (ns : String) (a : AliasDef) :
     (rtAlias N ns a).flatMap judgedItem =
-      (JKind.validator, a.name ++ "_validator") ::
+      (JKind.validator, fmtClass N a.name ++ "_validator") ::
         (if isUserTy (unwrapAliases a.ty) then [(JKind.aliasName, a.name)] else []) := by
   by_cases h : isUserTy (unwrapAliases a.ty) <;> simp [rtAlias, h, judgedItem]
 
